@@ -232,10 +232,11 @@ def _curved_stock(cls_name):
             "Ellipsoid": lambda: sh.Ellipsoid(1.2, 2.7, 0.6, c)}[cls_name]()
 
 
-def roundtrip_problems(cls, variant=0):
+def roundtrip_problems(cls, variant=0, obj=None):
     import coxeter  # noqa: F401  (eval of repr needs the package name)
     cox = real_coxeter()
-    obj = _curved_stock(cls) if cls in CURVED else stock_real(cls, variant)
+    if obj is None:
+        obj = _curved_stock(cls) if cls in CURVED else stock_real(cls, variant)
     probs = []
 
     def close(u, v):
@@ -276,8 +277,9 @@ def roundtrip_problems(cls, variant=0):
     return probs
 
 
-def hoomd_problems(cls, variant=0):
-    obj = _curved_stock(cls) if cls in CURVED else stock_real(cls, variant)
+def hoomd_problems(cls, variant=0, obj=None):
+    if obj is None:
+        obj = _curved_stock(cls) if cls in CURVED else stock_real(cls, variant)
     if not hasattr(obj, "to_hoomd"):
         return []
     d = obj.to_hoomd()
@@ -318,6 +320,11 @@ def hoomd_problems(cls, variant=0):
     return probs
 
 
+def known_hoomd(cls):
+    """classes whose to_hoomd clause is an open known finding on the unchanged tree (not re-examined after mutations)"""
+    return cls == "ConvexSpheropolygon"
+
+
 def run(chk):
     chk.trusted += ["float64 arithmetic treated as exact real arithmetic in the curved-shape clauses",
                     "float text round trip (float(repr(x)) == x)"]
@@ -341,6 +348,36 @@ def run(chk):
                 fails.append((f"roundtrip[{cls}/{variant}]", {"class": cls, "problems": rp}))
             if hp:
                 fails.append((f"to_hoomd:one_centred_shape[{cls}]", {"class": cls, "problems": hp}))
+            if rp or hp:
+                continue
+            # the same object: representations read once, then the shape is moved / resized through its public setters and
+            # every representation must describe the *current* shape
+            try:
+                from . import stale
+                obj = _curved_stock(cls) if cls in CURVED else stock_real(cls, variant)
+                roundtrip_problems(cls, variant, obj), hoomd_problems(cls, variant, obj)
+                muts = stale.standard_mutators(obj)
+                for nm in ("a", "b", "c"):
+                    pr = getattr(type(obj), nm, None)
+                    if isinstance(pr, property) and pr.fset is not None:
+                        muts.append((f"{nm}*=1.5", lambda o, nm=nm: setattr(o, nm, 1.5 * getattr(o, nm))))
+                done = []
+                for mname, mut in muts:
+                    try:
+                        mut(obj)
+                    except (NotImplementedError, RuntimeError, ValueError, AttributeError):
+                        continue
+                    done.append(mname)
+                    n += 2
+                    rp2 = roundtrip_problems(cls, variant, obj)
+                    hp2 = [] if known_hoomd(cls) else hoomd_problems(cls, variant, obj)
+                    if rp2 or hp2:
+                        fails.append((f"roundtrip_after_mutation[{cls}/{variant}]",
+                                      {"class": cls, "history": ["read repr / gsd_shape_spec / to_hoomd"] + done + ["read again"],
+                                       "problems": rp2 + hp2}))
+                        break
+            except Exception as e:  # noqa: BLE001
+                fails.append((f"roundtrip_after_mutation[{cls}/{variant}]", {"class": cls, "problems": [f"{type(e).__name__}: {e}"[:200]]}))
     seen = set()
     for name, info in fails:
         if name in seen:
@@ -352,6 +389,7 @@ def run(chk):
         chk.record("roundtrips", fkey, "bounded-pass", "round-trip", kind="bounded", detail=f"{n} round trips")
     chk.bounded.append({"clause": "eval(repr(x)) and from_gsd_type_shapes(x.gsd_shape_spec) rebuild the same class / geometry; to_hoomd values "
                                   "all describe the shape centred at its centroid",
-                        "bound": "1 (curved) / 2 (vertex-based) off-origin stock shapes per class", "evaluations": n, "distinct_nontrivial": n,
+                        "bound": "1 (curved) / 2 (vertex-based) off-origin stock shapes per class, fresh and again after each public "
+                                 "move / resize of the same object", "evaluations": n, "distinct_nontrivial": n,
                         "rule": "distinct = (class, stock shape, representation)", "samples": [{"class": "Polyhedron", "variant": 0}],
                         "failures": len(fails), "exhaustive": False})
